@@ -177,6 +177,7 @@ func init() {
 			ruleOpSiblings(c, r, "")
 			ruleCounting(c, r, "", "write")
 			ruleBlockWriterHash(c, r, "")
+			ruleLookahead(c, r, "")
 			ruleXZWriter(c, r, "")
 			t := getChunkTables(c, r, "")
 			ruleWriter2(c, r, t, "")
